@@ -44,6 +44,21 @@ func (e *Engine) pkgOf(path string) *types.Package {
 }
 
 func (e *Engine) importedPkg(from *types.Package, name string) *types.Package {
+	// import aliases used in the package's source files
+	if p, ok := e.allPkgs[from.Path()]; ok {
+		for _, f := range p.Syntax {
+			for _, im := range f.Imports {
+				if im.Name != nil && im.Name.Name == name {
+					path := strings.Trim(im.Path.Value, "\"")
+					for _, imp := range from.Imports() {
+						if imp.Path() == path {
+							return imp
+						}
+					}
+				}
+			}
+		}
+	}
 	for _, imp := range from.Imports() {
 		if imp.Name() == name {
 			return imp
